@@ -4,6 +4,7 @@ package main
 
 import (
 	"fmt"
+	"go/token"
 	"os"
 	"strconv"
 	"strings"
@@ -442,6 +443,7 @@ type AtClause struct {
 	Actions  []Action
 	Line     int
 	hits     int
+	sites    map[token.Pos]bool // distinct instructions that fired this anchor
 }
 
 type LoopContract struct {
